@@ -60,7 +60,7 @@ func c14Pcap(nanos bool, cut bool) {
 		pw = NewWriter(w)
 	}
 	snap := verifU32("snaplen")
-	verifAssume(snap >= 3)
+	verifAssume(verifAnd(snap >= 3, snap <= 0xffff))
 	lt := layers.LinkType(verifU32("linktype"))
 	verifAssert(pw.WriteFileHeader(snap, lt) == nil, "header written")
 	ends := make([]int, k)
